@@ -27,7 +27,7 @@ META = {
  "C06": ("property-based testing of time controls under a virtual clock driven by searched nodes",
          "generated time controls and event injections run in-process with the clock hook; soft/hard limits and delivery time checked against the budget formula",
          "clock/limit hooks (TEXEL_VERIF), budget formula derived from computeTimeLimit's documented intent"),
- "C07": ("stateful property-based testing + metamorphic relations + cross-variant differential testing of the evaluation",
+ "C07": ("stateful property-based testing + metamorphic relations + cross-variant differential testing of the evaluation + coverage-guided fuzzing (libFuzzer, symmetry oracle) of the end-game rules",
          "generated move histories and real searches: incremental value vs. from-scratch value, colour-flip and mirror symmetry, identical values across SIMD builds",
          "fresh-evaluator recomputation, synthetic networks, evaluation hook (TEXEL_VERIF)"),
  "C08": ("model-based property testing + multi-threaded hammer with self-validating payloads + enumerated index arithmetic",
@@ -114,8 +114,7 @@ def main():
             m["engines"][0]["serves_properties"].append(pid)
         else:
             m["not_applicable"].append({"property_id": pid, "reason": "check not built yet in this session (work in progress; see DESIGN.md §3 %s)" % pid})
-    if not m["not_applicable"]:
-        del m["not_applicable"]
+    # kept even when empty: every listed property is claimed
     json.dump(m, open(os.path.join(V, "MANIFEST.json"), "w"), indent=1)
     print("checks:", [c["property_id"] for c in m["checks"]])
 
